@@ -26,7 +26,14 @@ DEGENERATE = {
     "binary": bytes(range(256)).decode("latin-1"),
 }
 PATTERN_ALPHABET = '^$()[]{}|.?*+\\-,:ab01xAFpsd'
-SPECIAL_PATTERNS = ["", "\\x", "\\x0", "\\x00", "[\\x00E9]", "[\\x00E9-\\x00EA]", "\\p{", "\\p{Latin}", "\\P{Greek}+", "[[:alpha:]", "[:alpha:]", "a{", "a{1", "a{1,", "a{,2}",
+# hexadecimal escapes of every documented width (2 and 4..8 digits) at the interesting values, alone and as items, bounds and
+# negated items of a bracket group
+HEX_VALUES = ["00", "7F", "0080", "FFFF", "10FFFF", "110000", "7FFFFFFF", "80000000", "FFFFFFFF", "00000041"]
+HEX_SMALL = ["00", "7F", "0080", "0FFF", "00000041"]
+HEX_PATTERNS = [f % ("\\x" + v) for v in HEX_VALUES for f in ("%s", "[%s]", "[^%s]", "a%s+", "(%s|b)*")] + \
+               ["[\\x%s-\\x%s]" % (a, b) for a in HEX_SMALL for b in HEX_SMALL] + \
+               ["[a-\\xFFFFFFFF]", "[\\xFFFFFFFF-z]", "[\\x7FFFFFFF-\\x80000000]", "[\\x0080-\\xFFFF]"]   # one wide range (known finding HUGE-RANGE)
+SPECIAL_PATTERNS = HEX_PATTERNS + ["", "\\x", "\\x0", "\\x00", "[\\x00E9]", "[\\x00E9-\\x00EA]", "\\p{", "\\p{Latin}", "\\P{Greek}+", "[[:alpha:]", "[:alpha:]", "a{", "a{1", "a{1,", "a{,2}",
                     "a{99999999999999999999}", "a{1000}", "(a{20}){20}", "((((((((((a*)*)*)*)*)*)*)*)*)*)*", "é", "中文", "\\é", "[é]", "a\x00b", "\n", "[a-\\]", "(?:a)", "a|*",
                     "[^]", "[]", "()", "(|)", "a||b", "^^a", "a$$", ".{0}", "x{0,0}?"]
 CLI_LINES = [[], ["-h"], ["--help"], ["-help", "x"], ["-version"], ["--version"], ["-out"], ["-name"], ["-out", ""], ["-name", ""], ["-name=", "g.ebnf"],
@@ -65,6 +72,16 @@ def cli_runs(ck, binary):
             kind = "silentfailure"
         res.append({"argv": argv, "rc": rc, "kind": kind, "out": err[-200:]})
     return res
+
+
+def wide_range(pattern):
+    """the pattern contains a character range \\xLOW-\\xHIGH that spans more than 4096 code points"""
+    import re
+    for lo, hi in re.findall(r"\\x([0-9A-Fa-f]{2,8})-\\x([0-9A-Fa-f]{2,8})", pattern):
+        a, b = int(lo, 16), int(hi, 16)
+        if a <= 0x7FFFFFFF and b <= 0x7FFFFFFF and b - a > 0xFFF:
+            return True
+    return False
 
 
 def run(ck):
@@ -139,6 +156,8 @@ def run(ck):
         seen.add(key)
         what = "%s: %s on input %r %s" % (b["ep"], b["kind"], b["input"][:120], b["msg"][:160])
         import re as _re
+        if b["kind"] == "timeout" and wide_range(b["input"]) and ck.known("HUGE-RANGE", what):
+            continue
         if b["kind"] == "timeout" and _re.search(r"\{\s*\d{4,}", b["input"]) and ck.known("HUGE-REPETITION", what):
             continue
         ck.violation(what, {"property": "C14", "kind": b["kind"], "ep": b["ep"], "input": b["input"]})
